@@ -4,6 +4,7 @@ from .. import flow, tables
 from ..absint import core
 from ..absint.core import Agg, Const, TOP, Ref, UNIT, some, NONE, ok, err
 from ..absint.term import TermDomain, EffectDomain, Sym, T, K, IterV, VecV
+from ..absint.stdmodels import it_list
 from .common import census, anchor
 from . import evalops as E
 
@@ -290,15 +291,10 @@ def r6_factor(facts, rep):
             return [(tup, store)]
         if name == "powers::Powers::len":
             return [(T("len", vals[0]), store)]
-        if name.endswith("IntoIterator>::into_iter") and isinstance(vals[0], Sym) and vals[0].name.startswith("bases("):
+        if (name.endswith("IntoIterator>::into_iter") or name in ("powers::Powers::iter",)) and isinstance(vals[0], Sym) and vals[0].name.startswith("bases("):
             which = vals[0].name
             items = [Agg("tuple", None, None, None, (Sym("%s.key%d" % (which, i)), Sym("%s.pow%d" % (which, i)))) for i in range(2)]
-            return [(IterV(items), dom.with_log(store, ("iterate", which)))]
-        if name == "<powers::Iter<'_> as std::iter::Iterator>::next" and isinstance(vals[0], IterV):
-            a = vals[0]
-            if a.pos < len(a.items):
-                return [(some(a.items[a.pos]), it.write_ref(store, args[0], IterV(a.items, a.pos + 1)))]
-            return [(NONE, store)]
+            return [(it_list(items), dom.with_log(store, ("iterate", which)))]
         if name == "powers::Powers::get":
             p = T("get", vals[0], vals[1])
             d = dom.decide(store, T("found", vals[0], vals[1]))
@@ -310,7 +306,7 @@ def r6_factor(facts, rep):
             return outs
         if name.endswith("IntoIterator>::into_iter") and isinstance(vals[0], Sym):
             # iteration over self.names / other.names in the conversion phase: zero entries suffice for this rule
-            return [(IterV(()), dom.with_log(store, ("conversion-phase", repr(vals[0]))))]
+            return [(it_list(()), dom.with_log(store, ("conversion-phase", repr(vals[0]))))]
         return None
 
     for ea, eb in E.EMPTY_CLASSES:
